@@ -163,3 +163,148 @@ pub fn pow_neg_case(s: &mut impl Src, mc: &mut MaskCache, w: usize, yw: usize) {
     s.cover(true);
     same(&r, e);
 }
+
+/// Development aid (native only): exhaustive small-width comparison of the
+/// oracle with the implementation, to debug the oracle itself.  Not a check:
+/// the registered checks decide by solver.
+#[cfg(not(kani))]
+pub fn sweep() {
+    use crate::src::Rec;
+    let bins: &[(&str, Op, Bin)] = &[
+        ("add", Op::Add, Bin::Add), ("sub", Op::Sub, Bin::Sub), ("mul", Op::Mul, Bin::Mul),
+        ("div", Op::Div, Bin::Div), ("rem", Op::Rem, Bin::Rem), ("and", Op::BitAnd, Bin::And),
+        ("or", Op::BitOr, Bin::Or), ("xor", Op::BitXor, Bin::Xor), ("xnor", Op::BitXnor, Bin::Xnor),
+        ("eq", Op::Eq, Bin::Eq), ("ne", Op::Ne, Bin::Ne), ("eqw", Op::EqWildcard, Bin::EqWild),
+        ("new", Op::NeWildcard, Bin::NeWild), ("gt", Op::Greater, Bin::Gt), ("ge", Op::GreaterEq, Bin::Ge),
+        ("lt", Op::Less, Bin::Lt), ("le", Op::LessEq, Bin::Le), ("land", Op::LogicAnd, Bin::LAnd),
+        ("lor", Op::LogicOr, Bin::LOr), ("shl", Op::LogicShiftL, Bin::Shl), ("shr", Op::LogicShiftR, Bin::Shr),
+        ("ashl", Op::ArithShiftL, Bin::AShl), ("ashr", Op::ArithShiftR, Bin::AShr),
+    ];
+    let uns: &[(&str, Op, Un)] = &[
+        ("uplus", Op::Add, Un::Plus), ("uminus", Op::Sub, Un::Minus), ("unot", Op::BitNot, Un::Not),
+        ("rand", Op::BitAnd, Un::RAnd), ("rnand", Op::BitNand, Un::RNand), ("ror", Op::BitOr, Un::ROr),
+        ("rnor", Op::BitNor, Un::RNor), ("rxor", Op::BitXor, Un::RXor), ("rxnor", Op::BitXnor, Un::RXnor),
+        ("lnot", Op::LogicNot, Un::LNot),
+    ];
+    let le = |v: u64| v.to_le_bytes().to_vec();
+    for (name, op, ob) in bins {
+        let (mut n, mut bad) = (0u64, 0u64);
+        let mut first = String::new();
+        for w in 1..=3usize {
+            for k in 0..4 {
+                let (xw, yw) = combo(w, k);
+                for xp in 0..(1u64 << xw) { for xm in 0..(1u64 << xw) { for yp in 0..(1u64 << yw) { for ym in 0..(1u64 << yw) {
+                for flags in 0..8u8 {
+                    let (xs, ys, cs) = (flags & 1 != 0, flags & 2 != 0, flags & 4 != 0);
+                    let shiftop = matches!(ob, Bin::Shl | Bin::Shr | Bin::AShl | Bin::AShr);
+                    if cs && !(xs && (ys || shiftop)) { continue; }
+                    let draws = vec![le(xp), le(xm), vec![xs as u8], le(yp), le(ym), vec![ys as u8], vec![cs as u8]];
+                    let r = std::panic::catch_unwind(|| {
+                        let mut rec = Rec::new(draws);
+                        let mut mc = MaskCache::default();
+                        bin_case(&mut rec, &mut mc, *op, *ob, w, xw, yw);
+                    });
+                    n += 1;
+                    if r.is_err() {
+                        bad += 1;
+                        if first.is_empty() {
+                            first = format!("w={w} xw={xw} yw={yw} x=({xp:b},{xm:b},{xs}) y=({yp:b},{ym:b},{ys}) ctx_s={cs}");
+                        }
+                    }
+                }
+                }}}}
+            }
+        }
+        println!("{name}: {n} cases, {bad} mismatches {first}");
+    }
+    for (name, op, ou) in uns {
+        let (mut n, mut bad) = (0u64, 0u64);
+        let mut first = String::new();
+        for w in 1..=4usize { for xw in 1..=w {
+            for xp in 0..(1u64 << xw) { for xm in 0..(1u64 << xw) { for flags in 0..4u8 {
+                let (xs, cs) = (flags & 1 != 0, flags & 2 != 0);
+                if cs && !xs { continue; }
+                let draws = vec![le(xp), le(xm), vec![xs as u8], vec![cs as u8]];
+                let r = std::panic::catch_unwind(|| {
+                    let mut rec = Rec::new(draws);
+                    let mut mc = MaskCache::default();
+                    un_case(&mut rec, &mut mc, *op, *ou, w, xw);
+                });
+                n += 1;
+                if r.is_err() { bad += 1; if first.is_empty() { first = format!("w={w} xw={xw} x=({xp:b},{xm:b},{xs}) ctx_s={cs}"); } }
+            }}}
+        }}
+        println!("{name}: {n} cases, {bad} mismatches {first}");
+    }
+}
+
+/// Mul at large widths: x fully symbolic (4-state), y = a K-bit symbolic value
+/// placed at the concrete bit position `pos` (unsigned context), so the
+/// multiplier the solver sees has K partial products.  Stated reduced bound.
+pub fn mul_sparse(s: &mut impl Src, w: usize, pos: usize, swap: bool) {
+    const K: u64 = 4;
+    let (x, ox, xs) = draw(s, w);
+    let m = ValueU64::gen_mask(w);
+    let small = (s.u8() as u64) & ((1 << K) - 1);
+    let yp = (small << pos) & m;
+    let y = Value::U64(ValueU64 { payload: yp, mask_xz: 0, width: w as u32, signed: false });
+    let oy = V4::new(yp as u128, 0, w as u32);
+    let mut mc = MaskCache::default();
+    let (r, e) = if swap {
+        (Op::Mul.eval_value_binary(&y, &x, w, false, &mut mc), oracle::binary(Bin::Mul, oy, false, ox, xs, w as u32, false))
+    } else {
+        (Op::Mul.eval_value_binary(&x, &y, w, false, &mut mc), oracle::binary(Bin::Mul, ox, xs, oy, false, w as u32, false))
+    };
+    s.cover(small == (1 << K) - 1);
+    same(&r, e);
+    std::mem::forget(mc);
+}
+
+/// Div and Rem at large widths, checked by the division identity instead of a
+/// second divider: for a divisor with K free bits at position `pos`,
+///   q*y + r == x,  |r| < |y|,  r == 0 or sign(r) == sign(x)      (IEEE 1800 11.4.2)
+/// with the single wrap case MIN / -1 -> MIN, rem 0.  Any x/z or y == 0 -> all x.
+pub fn divrem_sparse(s: &mut impl Src, w: usize, pos: usize, signed: bool) {
+    const K: u64 = 4;
+    let m = ValueU64::gen_mask(w);
+    let xp = s.u64() & m;
+    let xm = if s.bool() { s.u64() & m } else { 0 };
+    let small = (s.u8() as u64) & ((1 << K) - 1);
+    // signed: optionally all-ones above the window so that negative divisors occur
+    let neg_fill = signed && s.bool();
+    let above = if pos as u64 + K >= 64 { 0 } else { m & !(((1u64 << (pos as u64 + K)) - 1)) };
+    let yp = ((small << pos) & m) | if neg_fill { above } else { 0 };
+    let x = Value::U64(ValueU64 { payload: xp, mask_xz: xm, width: w as u32, signed });
+    let y = Value::U64(ValueU64 { payload: yp, mask_xz: 0, width: w as u32, signed });
+    let mut mc = MaskCache::default();
+    let q = Op::Div.eval_value_binary(&x, &y, w, signed, &mut mc);
+    let r = Op::Rem.eval_value_binary(&x, &y, w, signed, &mut mc);
+    let (qp, qm, qw, qs) = got(&q);
+    let (rp, rm, rw, rs) = got(&r);
+    assert!(qw as usize == w && rw as usize == w && qs == signed && rs == signed);
+    s.cover(xm == 0 && yp != 0 && small == 5);
+    if xm != 0 || yp == 0 {
+        assert!(qp == 0 && qm == m && rp == 0 && rm == m, "x/z operand or zero divisor yields all-x");
+    } else {
+        assert!(qm == 0 && rm == 0);
+        if signed {
+            let sx = |v: u64| -> i128 {
+                if (v >> (w - 1)) & 1 == 1 { v as i128 - (m as i128 + 1) } else { v as i128 }
+            };
+            let (a, b, qq, rr) = (sx(xp), sx(yp), sx(qp), sx(rp));
+            let min = -((m as i128 + 1) / 2);
+            if a == min && b == -1 {
+                assert!(qq == min && rr == 0, "MIN / -1 wraps to MIN, remainder 0");
+            } else {
+                assert!(qq * b + rr == a, "q*y + r == x");
+                assert!(rr.abs() < b.abs(), "|r| < |y|");
+                assert!(rr == 0 || (rr < 0) == (a < 0), "remainder takes the dividend's sign");
+            }
+        } else {
+            let (a, b, qq, rr) = (xp as u128, yp as u128, qp as u128, rp as u128);
+            assert!(qq * b + rr == a, "q*y + r == x");
+            assert!(rr < b, "r < y");
+        }
+    }
+    std::mem::forget(mc);
+}
